@@ -3107,6 +3107,16 @@ func (c *pipelineConnClient) writer(conn net.Conn, stopCh <-chan struct{}, chs *
 			// Fast path: len(chW) > 0
 		default:
 			// Slow path
+			if flushTimerCh == nil && bw.Buffered() > 0 {
+				// A request written while chW was non-empty armed no flush.
+				// If the items behind it had expired, nothing else would flush it.
+				if maxBatchDelay > 0 {
+					flushTimer.Reset(maxBatchDelay)
+					flushTimerCh = flushTimer.C
+				} else {
+					flushTimerCh = instantTimerCh
+				}
+			}
 			stopTimer.Reset(maxIdleConnDuration)
 			select {
 			case w = <-chW:
